@@ -57,6 +57,7 @@ def _bounds_checked(test, subject: str):
 def r23_1(ctx, rep):
     R = "R23.1"
     total = 0
+    kcount = {}
     for q in FUNCS:
         fn = ctx.func(GEN, q, R)
         cfg = CFG(fn, R)
@@ -70,9 +71,23 @@ def r23_1(ctx, rep):
                 if isinstance(b, ast.BinOp) and isinstance(b.op, ast.Sub) and isinstance(b.right, ast.Constant) and b.right.value == 1 \
                         and isinstance(b.left, (ast.Name, ast.Attribute)):
                     subj = norm(b.left)
-                    if subj in ("cond_index",):
-                        continue
                     total += 1
+                    # what is converted, named by its provenance rather than by the local's name
+                    if subj.endswith(".start"):
+                        what = "slice start"
+                    elif isinstance(b.left, ast.Name):
+                        vals = [norm(d.value) for d in ast.walk(fn) if isinstance(d, ast.Assign) and any(is_name(t_, subj) for t_ in d.targets)]
+                        if any(".values" in v or "res[" in v or "Fmap" in v for v in vals):
+                            what = "for-loop index values"
+                        elif any("get_integer" in v for v in vals):
+                            what = "integer subscript"
+                        else:
+                            what = "value of `%s`" % subj
+                    else:
+                        what = "`%s`" % subj
+                    kcount[(site, what)] = kcount.get((site, what), 0) + 1
+                    if kcount[(site, what)] > 1:
+                        what += " #%d" % kcount[(site, what)]
                     subjects = [subj]
                     if subj.endswith(".start"):
                         subjects.append(subj[: -len(".start")] + ".stop")
@@ -94,7 +109,7 @@ def r23_1(ctx, rep):
                             ok = lo_any and up_any
                         if not ok:
                             missing.append(sj)
-                    rep.ob(R, site, "conversion `%s`" % norm(b), not missing,
+                    rep.ob(R, site, "conversion of %s" % what, not missing,
                            "`%s` turns a 1-based Modelica subscript into a 0-based index without a dominating range check on %s: "
                            "index 0 wraps to the last element / an out-of-range slice silently selects fewer elements" % (norm(b), missing))
     if total < 3:
@@ -113,12 +128,23 @@ def r23_2(ctx, rep):
     fn = ctx.func(GEN, "Generator.get_indexed_symbol", R)
     site = GEN + ":Generator.get_indexed_symbol"
     scalar = many = False
+    # outer loop: (subscript list, shape) of one name part; inner loop: (subscript, dimension) pairs
+    outer = inner = None
+    for lp in walk_local(fn):
+        if isinstance(lp, ast.For) and isinstance(lp.iter, ast.Call) and call_name(lp.iter) == "enumerate" and isinstance(lp.target, ast.Tuple) \
+                and isinstance(lp.target.elts[1], ast.Tuple) and len(lp.target.elts[1].elts) == 2:
+            outer = [e.id for e in lp.target.elts[1].elts if isinstance(e, ast.Name)]
+        if isinstance(lp, ast.For) and isinstance(lp.iter, ast.Call) and call_name(lp.iter) == "zip" and isinstance(lp.target, ast.Tuple) \
+                and len(lp.target.elts) == 2 and all(isinstance(e, ast.Name) for e in lp.target.elts):
+            inner = [e.id for e in lp.target.elts]
+    if not outer or len(outer) != 2 or not inner:
+        raise MechanismMissing(R, "the loops over (subscript list, shape) and (subscript, dimension) were not found")
     for n in walk_local(fn):
         if isinstance(n, ast.If) and any(isinstance(x, ast.Raise) for s in n.body for x in ast.walk(s)):
             t = norm(n.test)
-            if "is not None" in t and "dim is None" in t:
+            if "is not None" in t and ("%s is None" % inner[1]) in t:
                 scalar = True
-            if t.startswith("len(index_array) > len(shape)"):
+            if t.startswith("len(%s) > len(%s)" % (outer[0], outer[1])):
                 many = True
     rep.ob(R, site, "subscript on scalar", scalar, "`x[1]` on a scalar x must raise (test `sl is not None and dim is None`)")
     rep.ob(R, site, "too many subscripts", many, "more subscripts than dimensions must raise")
